@@ -451,14 +451,13 @@ def rule_pump(body, I, M):
         return dict(corr_ok=True, prop_ok=True, nontrivial=False, bucket="def", why="")
     if _bad_impl(i):
         return dict(corr_ok=False, prop_ok=False, nontrivial=True, bucket="crash", why="implementation " + i)
-    corr_ok = (i == M.get("M")) and I.get("W") == M.get("W")
+    corr_ok = (i == M.get("M")) and (I.get("W") in (None, "-") or I.get("W") == M.get("W"))
     o = I.get("O", "ok")
     prop_ok, why = (o == "ok"), ("oracle: " + o if o != "ok" else "")
     parts = i.split("/")
+    if prop_ok and I.get("CH") is not None:
+        prop_ok, why = False, "the .hex flavour of the command-line converter differs from the binary one"
     if prop_ok and parts[-1] == "ok":
-        w = I.get("W")
-        if w not in (None, "-") and w != parts[0]:
-            prop_ok, why = False, "streaming transcode %s differs from Unmarshal+Marshal %s" % (parts[0][:60], (w or "")[:60])
         c = I.get("C")
         if prop_ok and c is not None and c != parts[0]:
             prop_ok, why = False, "command-line converter output %s differs from the library pump %s" % (c[:60], parts[0][:60])
